@@ -97,7 +97,8 @@ def multipointCurve (c : IrCalc) (ur : Int) : Res Int :=
   curveLoop c.points 0 (rateFromU32 c.zeroRate) (rateFromU32 c.hundredRate) (clampUr ur)
 
 /-- `interest_rate_curve` (legacy three-point) -/
-def legacyCurve (c : IrCalc) (ur : Int) : Res Int :=
+def legacyCurve (c : IrCalc) (ur0 : Int) : Res Int :=
+  let ur := clampUr ur0
   if ur ≤ c.optimal then do
     let q ← Res.ofOpt (div? ur c.optimal)
     Res.ofOpt (mul? q c.plateau)
@@ -154,7 +155,9 @@ def collectUsed (pts : List Point) (seenPadding : Bool) (acc : List Point) : Opt
     if p.util = 0 then
       if p.rate ≠ 0 then none else collectUsed rest true acc
     else
-      if seenPadding then none else collectUsed rest false (p :: acc)
+      if seenPadding then none
+      else if p.util = U32MAX then none
+      else collectUsed rest false (p :: acc)
 
 /-- the second loop: strictly increasing utils, non-decreasing rates -/
 def ascending (used : List Point) : Bool :=
